@@ -6,7 +6,9 @@
 // four modes (poll, timed wait, untimed blocking wait, untimed select on GetOwnerWakeupSocket() followed by polls) and runs
 // shutdown / join / restart cycles with Messages queued before the start, behind the shutdown token and while stopped.
 // k -> placement (k % 32: 27 single (site,role,kind) delay placements, none, 2x jitter, pair, triple; hookrt.h delay bounding)
-//   -> combination ((k / 32) % 5: socket pair or wait-condition x internal-thread style default / select-first / mixed waits).
+//   -> combination ((k / 32) % 9: socket pair or wait-condition x internal-thread style default / select-first / mixed waits
+//      x owner woken directly or through an ICallbackMechanism of the harness: the owner blocks untimed on the mechanism's own
+//      primitive, then calls its DispatchCallbacks(), which hands the replies to Thread::MessageReceivedFromInternalThread()).
 // The checker runs inside the harness at the end of each case on the two event logs (internal thread's, owner's).
 // HANGS are never decided here: all waiting for completion is UNTIMED (join, blocking GetNextReplyFromInternalThread, select),
 // so a lost wake-up leaves every thread blocked without a timeout and the driver proves the deadlock (key <leg>|deadlock).
@@ -14,12 +16,15 @@
 // other options: msgs=<target Messages per case, default 200>  pl=<force placement 0..31>  combo=<force combination 0..4>
 #include "system/Thread.h"
 #include "util/SocketMultiplexer.h"
+#include "util/ICallbackMechanism.h"
 #include "system/SetupSystem.h"
 #include "util/TimeUtilityFunctions.h"
 #include <pthread.h>
 #include <sched.h>
 #include <thread>
 #include <atomic>
+#include <mutex>
+#include <condition_variable>
 #include <vector>
 #include <string>
 #include "vh.h"
@@ -52,15 +57,39 @@ static MessageRef MakeMsg(uint32 what, int snd, int seq, int b = -1)
    return m;
 }
 
+// ---- the harness's ICallbackMechanism: a latched flag under a mutex; the dispatch thread (= the owner) waits for it UNTIMED
+class HarnessCallbackMechanism : public ICallbackMechanism {
+public:
+   HarnessCallbackMechanism() : _count(0), _inDispatch(0), _signalsFromOthers(0), _signalsDuringDispatch(0), _signalsFromDispatcher(0) {}
+   std::mutex _mu; std::condition_variable _cv; long _count;
+   std::atomic<int> _inDispatch; std::atomic<long> _signalsFromOthers, _signalsDuringDispatch, _signalsFromDispatcher;   // relaxed, observation only
+   void WaitUntilSignalled() { std::unique_lock<std::mutex> lk(_mu); while (_count == 0) _cv.wait(lk); _count = 0; }
+   bool TryConsume() { std::lock_guard<std::mutex> g(_mu); if (_count == 0) return false; _count = 0; return true; }
+   void Dispatch() { _inDispatch.store(1, std::memory_order_relaxed); DispatchCallbacks(); _inDispatch.store(0, std::memory_order_relaxed); }
+private:
+   virtual void SignalDispatchThreadImplementation()
+   {
+      if (hookrt::role() == ROLE_OWNER) _signalsFromDispatcher.fetch_add(1, std::memory_order_relaxed);
+      else { _signalsFromOthers.fetch_add(1, std::memory_order_relaxed); if (_inDispatch.load(std::memory_order_relaxed)) _signalsDuringDispatch.fetch_add(1, std::memory_order_relaxed); }
+      { std::lock_guard<std::mutex> g(_mu); _count++; }
+      _cv.notify_one();
+   }
+};
+
+struct Scenario;
 // ---- the Thread under test.  Everything the internal thread writes here is plain data that the owner reads only after a join.
 class EchoThread : public Thread {
 public:
-   EchoThread(bool sockets, int style, int replyMode, uint64_t seed) : Thread(sockets), _style(style), _replyMode(replyMode), _seed(seed), _incarnation(0), _waitError(false), _sendError(false), _idleWakeups(0), _recvCount(0) {}
+   EchoThread(bool sockets, int style, int replyMode, uint64_t seed, ICallbackMechanism * mech, Scenario * sink) : Thread(sockets, mech), _style(style), _replyMode(replyMode), _seed(seed), _incarnation(0), _waitError(false), _sendError(false), _idleWakeups(0), _recvCount(0), _sink(sink), _announce(false), _repliedTo(0) {}
    int _style, _replyMode; uint64_t _seed; int _incarnation;
    std::vector<uint32_t> _log;        // (snd << 24 | seq) per Message in arrival order, LOG_TOKEN for the NULL shutdown token
    bool _waitError; std::string _waitErrorText; bool _sendError;
    long _idleWakeups;                  // wake-ups that found nothing (B_TIMED_OUT on an untimed wait / select that polled nothing)
    std::atomic<long> _recvCount;       // relaxed, only for progress notes
+   Scenario * _sink;                   // where MessageReceivedFromInternalThread() (owner thread, inside DispatchCallbacks) puts the replies
+   bool _announce; std::mutex _rmu; std::condition_variable _rcv; long _repliedTo;   // regress witnesses only: "the replies to n Messages have been sent"
+   void WaitUntilRepliedTo(long n) { std::unique_lock<std::mutex> lk(_rmu); while (_repliedTo < n) _rcv.wait(lk); }
+   virtual void MessageReceivedFromInternalThread(const MessageRef & m, uint32 numLeft);   // defined after Scenario
 
    virtual void InternalThreadEntry()
    {
@@ -94,13 +123,16 @@ public:
 
    virtual status_t MessageReceivedFromOwner(const MessageRef & m, uint32)
    {
-      if (m() == NULL) { _log.push_back(LOG_TOKEN); return B_ERROR; }
+      const status_t dflt = Thread::MessageReceivedFromOwner(m, 0);   // the default implementation: an error exactly for the NULL token
+      if ((m() == NULL) != dflt.IsError()) _log.push_back(LOG_INVALID);
+      if (m() == NULL) { _log.push_back(LOG_TOKEN); return dflt.IsError() ? dflt : B_ERROR; }
       int32 snd = -1, seq = -1;
       if (m()->what != WHAT_MSG || m()->FindInt32("snd", snd).IsError() || m()->FindInt32("seq", seq).IsError() || snd < 0 || snd > 100 || seq < 1 || seq >= (1 << 24)) { _log.push_back(LOG_INVALID); return B_NO_ERROR; }
       _log.push_back(((uint32_t)snd << 24) | (uint32_t)seq);
       _recvCount.fetch_add(1, std::memory_order_relaxed);
       const int n = NumReplies(_replyMode, snd, seq);
       for (int b = 0; b < n; b++) if (SendMessageToOwner(MakeMsg(WHAT_REPLY, snd, seq, b)).IsError()) _sendError = true;
+      if (_announce) { { std::lock_guard<std::mutex> g(_rmu); _repliedTo++; } _rcv.notify_all(); }
       return B_NO_ERROR;
    }
 };
@@ -119,15 +151,16 @@ static const SiteRole SR[9] = {
    { MVH_THREAD_INTERNAL_EXIT,      -2,            "internal_exit.any" },
 };
 static const int SITES[5] = { MVH_THREAD_SEND_AFTER_ENQUEUE, MVH_THREAD_WAIT_AFTER_DRAIN, MVH_THREAD_WAIT_BEFORE_BLOCK, MVH_THREAD_INTERNAL_ENTRY, MVH_THREAD_INTERNAL_EXIT };
-enum { NPL = 32, PL_NONE = 27, PL_JITTER_LIGHT = 28, PL_JITTER_HEAVY = 29, PL_PAIR = 30, PL_TRIPLE = 31, NCOMBO = 5 };
-static const struct { bool sockets; int style; } COMBO[NCOMBO] = { { true, STYLE_DEFAULT }, { false, STYLE_DEFAULT }, { true, STYLE_SELFIRST }, { false, STYLE_MIXED }, { true, STYLE_MIXED } };
+enum { NPL = 32, PL_NONE = 27, PL_JITTER_LIGHT = 28, PL_JITTER_HEAVY = 29, PL_PAIR = 30, PL_TRIPLE = 31, NCOMBO = 9 };
+static const struct { bool sockets; int style; bool callback; } COMBO[NCOMBO] = { { true, STYLE_DEFAULT, false }, { false, STYLE_DEFAULT, false }, { true, STYLE_SELFIRST, false }, { false, STYLE_MIXED, false }, { true, STYLE_MIXED, false },
+   { true, STYLE_DEFAULT, true }, { false, STYLE_DEFAULT, true }, { true, STYLE_SELFIRST, true }, { false, STYLE_MIXED, true } };
 static const char * KindName(int k) { return k == hookrt::K_YIELD ? "yield" : k == hookrt::K_SLEEP ? "sleep" : "spin"; }
 
 struct Params {
-   long k; uint64_t cs; bool sockets; int style; int replyMode; int nHelpers; int perSender; int pre; int maxRestarts; bool epilogue;
+   long k; uint64_t cs; bool sockets; int style; int replyMode; int nHelpers; int perSender; int pre; int maxRestarts; bool epilogue; bool callback, cbPure; int cbScript;
    std::string placement;
-   Params() : k(0), cs(1), sockets(true), style(STYLE_DEFAULT), replyMode(REPLY_ECHO), nHelpers(0), perSender(10), pre(0), maxRestarts(0), epilogue(false) {}
-   std::string Show() const { return vh::fmt("mech=%s style=%s reply=%s helpers=%d perSender=%d prequeued=%d placement=[%s]", sockets ? "socketpair" : "waitcondition", StyleName(style), ReplyName(replyMode), nHelpers, perSender, pre, placement.c_str()); }
+   Params() : k(0), cs(1), sockets(true), style(STYLE_DEFAULT), replyMode(REPLY_ECHO), nHelpers(0), perSender(10), pre(0), maxRestarts(0), epilogue(false), callback(false), cbPure(false), cbScript(0) {}
+   std::string Show() const { return vh::fmt("mech=%s owner=%s style=%s reply=%s helpers=%d perSender=%d prequeued=%d placement=[%s]", sockets ? "socketpair" : "waitcondition", callback ? (cbPure ? "callback-only" : "callback+direct") : "direct", StyleName(style), ReplyName(replyMode), nHelpers, perSender, pre, placement.c_str()); }
 };
 
 // arms one (site, role) in slot; returns its description
@@ -161,18 +194,18 @@ static std::string Classify(const std::vector<int> & got, int n, std::string & w
 }
 
 struct Scenario {
-   Params P; EchoThread t; pthread_rwlock_t life; vh::Rng r;
+   Params P; HarnessCallbackMechanism mech; EchoThread t; pthread_rwlock_t life; vh::Rng r;   // mech outlives t
    std::atomic<long> helperDue, helperSent, helpersDone, helperSendErrors;
    std::vector<std::thread> helpers;
    int ownerSeq; long ownerDue, got; bool running, tokenPending, lastRecvEmpty, bad, giveUp;
    std::vector<Rep> replyLog; std::vector<int> ownerSeqAtToken;
    long idleInARow;
    // observation counters of this case
-   long nPollOk, nPollEmpty, nTimedOk, nTimedOut, nBlockOk, nBlockIdle, nSelect, nSelectIdle, nRestarts, nStarts, nSentAfterRequest, nSentWhileStopped, nPre, nRepliesWhileStopped, nUnspecTimedStopped;
+   long nPollOk, nPollEmpty, nTimedOk, nTimedOut, nBlockOk, nBlockIdle, nSelect, nSelectIdle, nRestarts, nStarts, nSentAfterRequest, nSentWhileStopped, nPre, nRepliesWhileStopped, nUnspecTimedStopped, nCbDispatch, nCbReplies, nCbIdle, nCbWaits, nCbSendsInside, nCbScriptFired;
 
-   Scenario(const Params & p) : P(p), t(p.sockets, p.style, p.replyMode, p.cs), r(p.cs ^ 0xC11C11ULL), helperDue(0), helperSent(0), helpersDone(0), helperSendErrors(0),
+   Scenario(const Params & p) : P(p), t(p.sockets, p.style, p.replyMode, p.cs, p.callback ? &mech : NULL, this), r(p.cs ^ 0xC11C11ULL), helperDue(0), helperSent(0), helpersDone(0), helperSendErrors(0),
       ownerSeq(0), ownerDue(0), got(0), running(false), tokenPending(false), lastRecvEmpty(true), bad(false), giveUp(false), idleInARow(0),
-      nPollOk(0), nPollEmpty(0), nTimedOk(0), nTimedOut(0), nBlockOk(0), nBlockIdle(0), nSelect(0), nSelectIdle(0), nRestarts(0), nStarts(0), nSentAfterRequest(0), nSentWhileStopped(0), nPre(0), nRepliesWhileStopped(0), nUnspecTimedStopped(0)
+      nPollOk(0), nPollEmpty(0), nTimedOk(0), nTimedOut(0), nBlockOk(0), nBlockIdle(0), nSelect(0), nSelectIdle(0), nRestarts(0), nStarts(0), nSentAfterRequest(0), nSentWhileStopped(0), nPre(0), nRepliesWhileStopped(0), nUnspecTimedStopped(0), nCbDispatch(0), nCbReplies(0), nCbIdle(0), nCbWaits(0), nCbSendsInside(0), nCbScriptFired(0)
    {
       pthread_rwlockattr_t a; pthread_rwlockattr_init(&a); pthread_rwlockattr_setkind_np(&a, PTHREAD_RWLOCK_PREFER_WRITER_NONRECURSIVE_NP);
       if (pthread_rwlock_init(&life, &a) != 0) { fprintf(stderr, "HARNESS-ABORT: pthread_rwlock_init\n"); abort(); }
@@ -202,7 +235,6 @@ struct Scenario {
    }
    void Idle(const char * how)
    {
-      lastRecvEmpty = true;
       // a wake-up that finds nothing needs a signal that outlived its Message; that many in a row without a single Message means the
       // wake-up channel is permanently readable (closed?) while the thread counts as running -- a logical bound, not a time bound
       if (++idleInARow > 200000) { Fail("untimed_wait|returns_without_message_forever", vh::fmt("%s returned without a Message 200000 times in a row while replies are due", how)); giveUp = true; }
@@ -224,7 +256,7 @@ struct Scenario {
       if (!MayBlock()) { Poll(); return; }
       Note("owner in GetNextReplyFromInternalThread(MUSCLE_TIME_NEVER)");
       MessageRef rep; status_t s = t.GetNextReplyFromInternalThread(rep, MUSCLE_TIME_NEVER);
-      if (s.IsOK()) { HandleReply(rep); nBlockOk++; } else if (s == B_TIMED_OUT) { nBlockIdle++; Idle("GetNextReplyFromInternalThread(MUSCLE_TIME_NEVER)"); } else { Fail("blocking_wait|unexpected_status", std::string("GetNextReplyFromInternalThread(MUSCLE_TIME_NEVER) returned ") + s()); giveUp = true; }
+      if (s.IsOK()) { HandleReply(rep); nBlockOk++; } else if (s == B_TIMED_OUT) { nBlockIdle++; lastRecvEmpty = true; Idle("GetNextReplyFromInternalThread(MUSCLE_TIME_NEVER)"); } else { Fail("blocking_wait|unexpected_status", std::string("GetNextReplyFromInternalThread(MUSCLE_TIME_NEVER) returned ") + s()); giveUp = true; }
    }
    // owner-side select-first (the way a ReflectServer owns a Thread): sound only when the owner's last dequeue attempt found the queue
    // empty, because then the next enqueue is an empty->non-empty transition and must signal
@@ -241,7 +273,45 @@ struct Scenario {
       if (w.IsError()) { Fail("owner_wakeup_socket|wait_error", std::string("WaitForEvents: ") + w.GetStatus()()); giveUp = true; return; }
       nSelect++; long n = 0;
       while (true) { MessageRef rep; status_t s = t.GetNextReplyFromInternalThread(rep, 0); if (s.IsOK()) { HandleReply(rep); n++; } else { if (s != B_TIMED_OUT) Fail("poll|unexpected_status", std::string("GetNextReplyFromInternalThread(0) returned ") + s()); break; } }
-      if (n == 0) { nSelectIdle++; Idle("select on GetOwnerWakeupSocket() + poll"); } else lastRecvEmpty = true;
+      lastRecvEmpty = true;
+      if (n == 0) { nSelectIdle++; Idle("select on GetOwnerWakeupSocket() + poll"); }
+   }
+
+   // ---- owner woken through the ICallbackMechanism.  Sound without any precondition on earlier direct receives: every empty->non-empty
+   // transition of the reply queue requests a callback, a request either signals the primitive or finds one still owed, and the owner
+   // consumes the primitive only here, always followed by a full dispatch.
+   void OnCallbackReply(const MessageRef & m, uint32)
+   {
+      HandleReply(m); nCbReplies++;
+      if (P.cbScript == 1 && replyLog.back().seq == 1 && nCbScriptFired == 0) {
+         // witness: while the owner is inside the drain loop of Thread::DispatchCallbacks() the queue becomes empty and then non-empty again
+         nCbScriptFired++; OwnerSend();
+         Note("owner inside MessageReceivedFromInternalThread() waits (untimed) until the internal thread has sent the reply to #2");
+         t.WaitUntilRepliedTo(2);
+      }
+      else if (P.cbScript == 0) { const uint32_t c = r.R(16); if (c < 2 && ownerSeq < P.perSender) { OwnerSend(); nCbSendsInside++; } else if (c < 4) sched_yield(); }
+   }
+   void DoDispatch()
+   {
+      const long before = got; mech.Dispatch(); nCbDispatch++;
+      if (got == before) { nCbIdle++; if (MayBlock()) Idle("wait on the callback primitive + ICallbackMechanism::DispatchCallbacks()"); }
+   }
+   void TryDispatch() { if (!P.callback) { Poll(); return; } if (mech.TryConsume()) DoDispatch(); }
+   void Callback()
+   {
+      if (!P.callback) { Block(); return; }
+      if (!MayBlock()) { TryDispatch(); return; }
+      Note("owner blocked (untimed) on the harness ICallbackMechanism's primitive");
+      mech.WaitUntilSignalled(); nCbWaits++;
+      DoDispatch();
+   }
+   void PollAny() { if (P.callback && P.cbPure) TryDispatch(); else Poll(); }
+   void TimedAny() { if (P.callback && P.cbPure) TryDispatch(); else Timed(); }
+   void DrainStep()
+   {
+      if (!P.callback) { const uint32_t c = r.R(10); if (c < 6) Block(); else if (c < 9) Select(); else Timed(); }
+      else if (P.cbPure) Callback();
+      else { const uint32_t c = r.R(10); if (c < 2) Block(); else if (c < 3) Select(); else if (c < 9) Callback(); else Timed(); }
    }
 
    // lifecycle (owner only; callers hold the exclusive lock)
@@ -299,16 +369,16 @@ struct Scenario {
       const int v = r.R(4), q1 = r.R(4), q2 = r.R(3);
       switch (v) {
       case 0:   // shutdown+join in one call, Messages queued while stopped, start
-         Lock(); ShutdownJoinL(); for (int i = 0; i < q1; i++) OwnerSend(); if (r.R(2)) Poll(); StartL(); Unlock(); break;
+         Lock(); ShutdownJoinL(); for (int i = 0; i < q1; i++) OwnerSend(); if (r.R(2)) PollAny(); StartL(); Unlock(); break;
       case 1:   // request; owner (and helpers) keep sending behind the token; join; more Messages while stopped; start
          Lock(); RequestL(); Unlock();
-         for (int i = 0; i < q1; i++) { OwnerSend(); if (r.R(3) == 0) Poll(); else if (r.R(4) == 0) Timed(); }
+         for (int i = 0; i < q1; i++) { OwnerSend(); if (r.R(3) == 0) PollAny(); else if (r.R(4) == 0) TimedAny(); }
          Lock(); JoinL(); for (int i = 0; i < q2; i++) OwnerSend(); StartL(); Unlock(); break;
       case 2:   // request, sends, join, start -- all inside one exclusive section
          Lock(); RequestL(); for (int i = 0; i < q1; i++) OwnerSend(); JoinL(); StartL(); Unlock(); break;
       default:  // stay down for a while: helpers send into the stopped object, the owner polls the replies that are left
          Lock(); ShutdownJoinL(); Unlock();
-         for (int i = 0, n = 2 + r.R(12); i < n; i++) { const uint32_t c = r.R(4); if (c == 0) OwnerSend(); else if (c == 1) Poll(); else sched_yield(); }
+         for (int i = 0, n = 2 + r.R(12); i < n; i++) { const uint32_t c = r.R(4); if (c == 0) OwnerSend(); else if (c == 1) PollAny(); else sched_yield(); }
          Lock(); StartL(); Unlock(); break;
       }
    }
@@ -327,6 +397,8 @@ struct Scenario {
             const uint32_t c = r.R(100);
             if (restartsLeft > 0 && ownerSeq >= nextRestartAt) { restartsLeft--; nextRestartAt += restartEvery; Restart(); }
             else if (c < 35) { if (ownerSeq < P.perSender) OwnerSend(); else sched_yield(); }
+            else if (P.callback && P.cbPure) { if (c < 50) TryDispatch(); else if (c < 80) Callback(); else sched_yield(); }
+            else if (P.callback && c >= 62 && c < 80) { if (c < 66) Block(); else if (c < 68) Select(); else if (c < 78) Callback(); else TryDispatch(); }
             else if (c < 52) Poll();
             else if (c < 62) Timed();
             else if (c < 74) Block();
@@ -338,13 +410,13 @@ struct Scenario {
          for (size_t i = 0; i < helpers.size(); i++) helpers[i].join();
          if (helperSendErrors.load() > 0) Fail("send|error", vh::fmt("%ld helper SendMessageToInternalThread calls failed", helperSendErrors.load()));
          // every reply must now arrive: untimed waits, so that a lost wake-up is a provable hang and nothing else
-         while (!giveUp && got < Due()) { const uint32_t c = r.R(10); if (c < 6) Block(); else if (c < 9) Select(); else Timed(); }
+         while (!giveUp && got < Due()) DrainStep();
          if (running) { Lock(); ShutdownJoinL(); Unlock(); }
          if (P.epilogue && !giveUp) {
             // a used, stopped object: Messages queued now must be delivered by the next start (sockets were closed by the join)
             const int q = 1 + r.R(3); for (int i = 0; i < q; i++) OwnerSend();
             Lock(); const bool ok2 = StartL(); Unlock();
-            if (ok2) { while (!giveUp && got < Due()) { if (r.R(3) == 0) Select(); else Block(); } Lock(); ShutdownJoinL(); Unlock(); }
+            if (ok2) { while (!giveUp && got < Due()) DrainStep(); Lock(); ShutdownJoinL(); Unlock(); }
          }
          { MessageRef extra; status_t s = t.GetNextReplyFromInternalThread(extra, 0); if (s.IsOK()) HandleReply(extra); }   // one more than due -> the checker below says duplicate/not_sent
       }
@@ -403,6 +475,8 @@ struct Scenario {
    }
 };
 
+void EchoThread::MessageReceivedFromInternalThread(const MessageRef & m, uint32 numLeft) { if (_sink) _sink->OnCallbackReply(m, numLeft); }
+
 static void Publish(Scenario & sc, const long * hits0, const long * delays0)
 {
    const Params & P = sc.P;
@@ -422,10 +496,17 @@ static void Publish(Scenario & sc, const long * hits0, const long * delays0)
    vh::stat("owner_poll_ok", sc.nPollOk); vh::stat("owner_poll_empty", sc.nPollEmpty); vh::stat("owner_timed_ok", sc.nTimedOk); vh::stat("owner_timed_out", sc.nTimedOut);
    vh::stat("owner_untimed_wait_ok", sc.nBlockOk); vh::stat("owner_untimed_wait_idle_return", sc.nBlockIdle); vh::stat("owner_select_wakeups", sc.nSelect); vh::stat("owner_select_idle_wakeup", sc.nSelectIdle);
    vh::stat("internal_idle_wakeups", sc.t._idleWakeups); vh::stat("unspecified_timed_wait_on_stopped_thread_polled_instead", sc.nUnspecTimedStopped);
+   if (P.callback) {
+      vh::stat(P.cbPure ? "cases_owner_callback_only" : "cases_owner_callback_and_direct"); vh::stat(P.sockets ? "cases_callback_socketpair" : "cases_callback_waitcondition");
+      vh::stat("callback_dispatches", sc.nCbDispatch); vh::stat("callback_untimed_waits", sc.nCbWaits); vh::stat("callback_idle_dispatches", sc.nCbIdle); vh::stat("replies_via_callback", sc.nCbReplies);
+      vh::stat("callback_signals_from_other_threads", sc.mech._signalsFromOthers.load()); vh::stat("callbacks_requested_during_drain", sc.mech._signalsDuringDispatch.load());
+      vh::stat("callback_resignals_by_dispatcher", sc.mech._signalsFromDispatcher.load()); vh::stat("msgs_sent_from_inside_callback", sc.nCbSendsInside);
+   }
    if (sc.P.epilogue) vh::stat("cases_with_epilogue_start");
    vh::statmax("max_msgs_in_a_case", sent);
-   // non-trivial: Messages were exchanged and at least one receiver reached the point of blocking on an empty queue (a wake-up was needed)
-   vh::distinct(hookrt::order_signature() ^ vh::mix64(P.cs), sent >= 20 && blockHits > 0);
+   // non-trivial: Messages were exchanged and at least one receiver reached the point of blocking on an empty queue, or the owner blocked on
+   // the callback mechanism's primitive (a wake-up was needed)
+   vh::distinct(hookrt::order_signature() ^ vh::mix64(P.cs), sent >= 20 && (blockHits > 0 || sc.nCbWaits > 0));
    if (vh::want_sample()) vh::sample(vh::fmt("case %ld: ", P.k) + P.Show() + " | " + sc.State());
 }
 
@@ -435,9 +516,9 @@ static void RunCase(long k, uint64_t seed)
    vh::Rng g(P.cs);
    const int pl = vh::has_opt("pl") ? (int)vh::optl("pl") % NPL : (int)(k % NPL);
    const int combo = vh::has_opt("combo") ? (int)vh::optl("combo") % NCOMBO : (int)((k / NPL) % NCOMBO);
-   P.sockets = COMBO[combo].sockets; P.style = COMBO[combo].style;
+   P.sockets = COMBO[combo].sockets; P.style = COMBO[combo].style; P.callback = COMBO[combo].callback;
    P.nHelpers = g.R(4); P.replyMode = (int)g.R(8); if (P.replyMode > 3) P.replyMode = (P.replyMode & 1) ? REPLY_BURST : REPLY_ECHO;
-   P.pre = g.R(2) ? 1 + g.R(4) : 0; P.maxRestarts = g.R(3) ? g.R(4) : 0; P.epilogue = (g.R(4) == 0);
+   P.pre = g.R(2) ? 1 + g.R(4) : 0; P.maxRestarts = g.R(3) ? g.R(4) : 0; P.epilogue = (g.R(4) == 0); P.cbPure = P.callback && g.R(2);
    const long target = vh::optl("msgs", 200); const int total = (int)(target / 2 + g.R((uint32_t)target));
    // ---- arm the placement of this case (no muscle thread is running now)
    hookrt::disarm_all(); hookrt::reset_ring();
@@ -454,8 +535,10 @@ static void RunCase(long k, uint64_t seed)
       if (s.site == MVH_THREAD_SEND_AFTER_ENQUEUE && s.role == ROLE_INTERNAL && (P.replyMode == REPLY_NONE || P.replyMode == REPLY_SPARSE)) P.replyMode = g.R(2) ? REPLY_BURST : REPLY_ECHO;
       if (s.site == MVH_THREAD_WAIT_AFTER_DRAIN && s.role == ROLE_OWNER && P.replyMode == REPLY_NONE) P.replyMode = REPLY_BURST;
       if (s.site == MVH_THREAD_WAIT_BEFORE_BLOCK && s.role == ROLE_OWNER && P.replyMode == REPLY_NONE) P.replyMode = REPLY_ECHO;
+      if (s.site == MVH_THREAD_WAIT_BEFORE_BLOCK && s.role == ROLE_OWNER && P.cbPure) P.cbPure = false;   // a callback-only owner never reaches that window
       if (s.site == MVH_THREAD_INTERNAL_ENTRY || s.site == MVH_THREAD_INTERNAL_EXIT) { if (P.maxRestarts < 2) P.maxRestarts = 2 + g.R(2); if (P.pre == 0) P.pre = 1 + g.R(3); }
    }
+   if (P.callback && P.replyMode == REPLY_NONE) P.replyMode = REPLY_BURST;   // nothing would ever wake the owner
    P.perSender = total / (1 + P.nHelpers); if (P.perSender < 4) P.perSender = 4;
    long hits0[5], delays0[5]; for (int i = 0; i < 5; i++) { hits0[i] = hookrt::hits(SITES[i]); delays0[i] = hookrt::delays(SITES[i]); }
    hookrt::set_role(ROLE_OWNER); hookrt::t_rng ^= (uint32_t)(P.cs >> 3) * 2u; if (hookrt::t_rng == 0) hookrt::t_rng = 1;
@@ -466,17 +549,18 @@ static void RunCase(long k, uint64_t seed)
 }
 
 // ---- fixed tiny scenarios (deterministic in what is sent; the interleaving is the OS's) and documentation examples of Thread.h
-static void DrainAllDue(Scenario & sc, bool useSelect) { while (!sc.giveUp && sc.got < sc.Due()) { if (useSelect) sc.Select(); else sc.Block(); } }
+static void DrainAllDue(Scenario & sc, bool useSelect) { while (!sc.giveUp && sc.got < sc.Due()) { if (sc.P.callback) sc.Callback(); else if (useSelect) sc.Select(); else sc.Block(); } }
 static void Regress()
 {
    hookrt::disarm_all(); hookrt::set_role(ROLE_OWNER);
    long kase = 0;
    for (int combo = 0; combo < NCOMBO; combo++) {
-      Params P; P.sockets = COMBO[combo].sockets; P.style = COMBO[combo].style; P.replyMode = REPLY_ECHO; P.perSender = 0; P.placement = "none";
+      Params P; P.sockets = COMBO[combo].sockets; P.style = COMBO[combo].style; P.callback = P.cbPure = COMBO[combo].callback; P.cbScript = 2 /* nothing random inside callbacks */; P.replyMode = REPLY_ECHO; P.perSender = 0; P.placement = "none";
       {  // Messages queued before the start are delivered once it starts (select-first style: only through the initial signal)
          vh::begin_case(kase); P.k = kase++; P.cs = 100 + combo; Scenario sc(P);
          for (int i = 0; i < 3; i++) sc.OwnerSend();
          sc.Lock(); sc.StartL(); sc.Unlock(); DrainAllDue(sc, false); sc.Lock(); sc.ShutdownJoinL(); sc.Unlock(); sc.FinalCheck();
+         if (!sc.bad && P.callback && sc.nCbReplies != 3) sc.Fail("regress|callback_delivery", vh::fmt("%ld of 3 replies came through MessageReceivedFromInternalThread()", sc.nCbReplies));
          if (!sc.bad && (sc.t._log.size() != 4 || sc.replyLog.size() != 3)) sc.Fail("regress|prequeued", "3 Messages queued before StartInternalThread: " + sc.TailOfInternalLog(10));
          vh::distinct(1000 + kase);
       }
@@ -516,6 +600,18 @@ static void Regress()
          sc.FinalCheck();
          if (!sc.bad && sc.t._log.size() != 2) sc.Fail("docex|ShutdownInternalThread", "ShutdownInternalThread() on a stopped Thread is documented as a no-op: " + sc.TailOfInternalLog(10));
          vh::distinct(1000 + kase);
+      }
+      if (P.callback) {
+         // a reply is enqueued and a callback requested while the owner is in the middle of the drain loop of Thread::DispatchCallbacks();
+         // afterwards the owner must still be woken for the next reply (a request that was dropped or left half-served strands it)
+         vh::begin_case(kase); P.k = kase++; P.cs = 500 + combo; P.cbScript = 1; Scenario sc(P); sc.t._announce = true;
+         sc.Lock(); sc.StartL(); sc.Unlock(); sc.OwnerSend(); DrainAllDue(sc, false);      // #1; its callback sends #2 and waits until the reply to #2 is queued
+         if (!sc.bad && (sc.nCbScriptFired != 1 || sc.got != 2)) sc.Fail("regress|callback_request_during_drain", "the scripted send from inside MessageReceivedFromInternalThread() did not happen as planned: " + sc.TailOfReplyLog(10));
+         sc.OwnerSend(); DrainAllDue(sc, false);                                            // #3: needs a fresh wake-up through the mechanism
+         sc.Lock(); sc.ShutdownJoinL(); sc.Unlock(); sc.FinalCheck();
+         if (!sc.bad && (sc.replyLog.size() != 3 || sc.nCbReplies != 3)) sc.Fail("regress|callback_request_during_drain", vh::fmt("%ld of 3 replies came through MessageReceivedFromInternalThread(); ", sc.nCbReplies) + sc.TailOfReplyLog(10));
+         vh::stat("regress_callback_request_during_drain_witnesses"); vh::stat("regress_callback_requests_signalled_during_drain", sc.mech._signalsDuringDispatch.load());
+         vh::distinct(1000 + kase); P.cbScript = 2;
       }
       vh::stat("regress_combinations");
    }
